@@ -249,6 +249,7 @@ async fn run(plan: &EventsPlan, cx: &mut Cx, only_download: bool) -> Res {
     let mut subs: Vec<Sub> = Vec::new();
     type PendFut = Pin<Box<dyn Future<Output = Result<(), String>>>>;
     let mut pending: Vec<(String, PendFut, Option<bool>)> = Vec::new();
+    let mut policy_reads: Vec<usize> = Vec::new();
 
     // drive until all pending replies are in; drain non-paused subscribers in between
     macro_rules! settle {
@@ -274,6 +275,11 @@ async fn run(plan: &EventsPlan, cx: &mut Cx, only_download: bool) -> Res {
                     match poll_once(&mut fut) {
                         Poll::Ready(r) => {
                             progressed = true;
+                            if name == "get-policy" {
+                                if let Err(e) = &r {
+                                    return Err(Violation::new("persist/policy-read-back", format!("the download policy read through the store actor right after setting it differs: {e}")));
+                                }
+                            }
                             if let (Some(ok), false) = (expect_ok, only_download) {
                                 if r.is_ok() != ok {
                                     return Err(Violation::new(format!("result/{name}"), format!("{name} returned ok={}, the model says ok={ok}: {r:?}", r.is_ok())));
@@ -490,6 +496,21 @@ async fn run(plan: &EventsPlan, cx: &mut Cx, only_download: bool) -> Res {
                 pending.push(("set-policy".into(), fut, Some(true)));
                 policy = Some(p.clone());
                 cx.ev("policy", format!("{p:?}"));
+                if only_download {
+                    // the policy read back through the actor is the one just set (requests are FIFO)
+                    let h3 = h.clone();
+                    let want = postcard::to_stdvec(&p.real()).unwrap_or_default();
+                    let mut fut: PendFut = Box::pin(async move {
+                        match h3.get_download_policy(ns).await {
+                            Ok(got) if postcard::to_stdvec(&got).unwrap_or_default() == want => Ok(()),
+                            Ok(got) => Err(format!("read back {got:?}")),
+                            Err(e) => Err(format!("{e:#}")),
+                        }
+                    });
+                    let _ = poll_once(&mut fut);
+                    pending.push(("get-policy".into(), fut, None));
+                    policy_reads.push(pending.len() - 1);
+                }
             }
             EStep::Tick { dt } => {
                 // a tick must not overtake requests already queued (they read the clock when processed)
@@ -518,6 +539,7 @@ async fn run(plan: &EventsPlan, cx: &mut Cx, only_download: bool) -> Res {
     for (i, s) in subs.iter().enumerate() {
         check_sub(i, s, &applied, ns, true, only_download)?;
     }
+    let _ = &policy_reads;
     cx.state(crate::rng::fnv(format!("{}:{}", applied.len(), subs.len()).as_bytes()));
     let _ = node.stop().await?;
     Ok(())
